@@ -2,33 +2,38 @@
 use automerge::transaction::Transactable;
 use automerge::*;
 
-fn show(ps: &[Patch]) {
-    for p in ps {
-        println!("    {:?} {:?}", p.path.iter().map(|x| x.1.clone()).collect::<Vec<_>>(), p.action);
-    }
-}
-
 fn main() {
+    // hypothesis: historical length of a text whose element was overwritten by put()
     let mut d = AutoCommit::new();
     let t = d.put_object(ROOT, "t", ObjType::Text).unwrap();
-    d.splice_text(&t, 0, 0, "ab").unwrap();
-    let b = d.split_block(&t, 1).unwrap();
-    d.put(&b, "type", "p").unwrap();
+    d.splice_text(&t, 0, 0, "hello").unwrap();
     d.commit();
-    let h = d.get_heads();
-    println!("diff([], current heads):");
-    show(&d.diff(&[], &h));
-    d.put(ROOT, "later", 1).unwrap();
+    d.put(&t, 0, "x").unwrap();
     d.commit();
-    println!("diff([], h) with h historical:");
-    show(&d.diff(&[], &h));
-    let h3 = d.get_heads();
-    println!("diff(h3, h) backwards:");
-    show(&d.diff(&h3, &h));
-    println!("Automerge::current_state():");
-    show(&d.document().current_state());
-    let mut pl = PatchLog::active();
-    let am = Automerge::load_with_options(&d.save(), LoadOptions::new().patch_log(&mut pl)).unwrap();
-    println!("load_with_options(patch_log):");
-    show(&am.make_patches(&mut pl));
+    let h1 = d.get_heads();
+    println!("now: text={:?} length={}", d.text(&t).unwrap(), d.length(&t));
+    d.splice_text(&t, 5, 0, "!").unwrap();
+    d.commit();
+    println!("at h1: text_at={:?} length_at={}", d.text_at(&t, &h1).unwrap(), d.length_at(&t, &h1));
+    let f = d.fork_at(&h1).unwrap();
+    println!("fork_at(h1): text={:?} length={}", f.text(&t).unwrap(), f.length(&t));
+    for i in 0..6 {
+        println!("  get_all_at({i}) = {:?}", d.get_all_at(&t, i, &h1).unwrap().iter().map(|x| format!("{}", x.0)).collect::<Vec<_>>());
+    }
+    // two concurrent overwrites
+    let mut a = AutoCommit::new();
+    let t = a.put_object(ROOT, "t", ObjType::Text).unwrap();
+    a.splice_text(&t, 0, 0, "hello").unwrap();
+    a.commit();
+    let mut b = a.fork();
+    a.put(&t, 0, "A").unwrap();
+    b.put(&t, 0, "B").unwrap();
+    a.commit();
+    b.commit();
+    a.merge(&mut b).unwrap();
+    let h = a.get_heads();
+    println!("conflicted now: text={:?} length={}", a.text(&t).unwrap(), a.length(&t));
+    a.splice_text(&t, 5, 0, "!").unwrap();
+    a.commit();
+    println!("conflicted at h: text_at={:?} length_at={}", a.text_at(&t, &h).unwrap(), a.length_at(&t, &h));
 }
